@@ -1068,6 +1068,160 @@ func (e *env) runNest(ws []string) string {
 	return "serve=" + showList(got)
 }
 
+// ---------------------------------------------------------------- routers as tiers: fall-through after Miss
+
+// chainFunc: handlers with tags 70..79 return Miss, the others nil; every
+// invocation is recorded with what the handler sees.
+func chainFunc(log *[]string) func(string, int) aries.Func {
+	return func(role string, tag int) aries.Func {
+		return func(c *aries.C) error {
+			total := len(splitSegs(c.Path))
+			rr := c.RelRoute()
+			*log = append(*log, fmt.Sprintf("%s%d@%s@%d@%s", role, tag, hexs(c.Rel()), total-len(rr), showRoute(rr)))
+			if tag >= 70 && tag < 80 {
+				return aries.Miss
+			}
+			return nil
+		}
+	}
+}
+
+func chainImpl(defs [3]int, regs [3][]rReg, reqs []rReq) []string {
+	var log []string
+	mk := chainFunc(&log)
+	s := &aries.ServiceSet{
+		Auth:     &authImpl{r: new(ssRun), serve: tierSpec{kind: "miss"}, setup: "keep"},
+		Resource: buildRouterImpl(-1, defs[0], regs[0], mk),
+		Guest:    buildRouterImpl(-1, defs[1], regs[1], mk),
+		User:     buildRouterImpl(-1, defs[2], regs[2], mk),
+	}
+	var out []string
+	for _, q := range reqs {
+		log = nil
+		res := func() (o string) {
+			defer func() {
+				if recover() != nil {
+					o = "panic"
+				}
+			}()
+			c := aries.NewContext(httptest.NewRecorder(), newReq(q.method, q.path, "h"))
+			c.User = "u"
+			if q.pos > 0 {
+				c.ShiftRoute(q.pos)
+			}
+			err := s.Serve(c)
+			switch {
+			case err == aries.Miss:
+				return "miss"
+			case err == nil:
+				return "ok"
+			}
+			return "err"
+		}()
+		inv := "-"
+		if len(log) > 0 {
+			inv = strings.Join(log, "|")
+		}
+		out = append(out, inv+">"+res)
+	}
+	return out
+}
+
+// chainSpec is the direct oracle, written from the property text: every tier
+// decides on the request's own path (the position the service set was handed);
+// a handler runs only if it is registered, in its own router, for the longest
+// segment-wise prefix of that path; a tier that misses changes nothing for the
+// next one.
+func chainSpec(defs [3]int, regs [3][]rReg, reqs []rReq) []string {
+	var out []string
+	for _, q := range reqs {
+		all := splitSegs(q.path)
+		var inv []string
+		res := "miss"
+		for t := 0; t < 3; t++ {
+			_, b := routerSpec(-1, defs[t], regs[t], []rReq{q})
+			r := b[0]
+			if r == "badmethod" {
+				res = "err"
+				break
+			}
+			if r == "miss" {
+				continue
+			}
+			p := strings.Split(r, "@")
+			np, _ := strconv.Atoi(p[2])
+			inv = append(inv, r+"@"+showRoute(all[np:]))
+			tag, _ := strconv.Atoi(p[0][1:])
+			if tag >= 70 && tag < 80 {
+				continue
+			}
+			res = "ok"
+			break
+		}
+		is := "-"
+		if len(inv) > 0 {
+			is = strings.Join(inv, "|")
+		}
+		out = append(out, is+">"+res)
+	}
+	return out
+}
+
+func (e *env) runChain(ws []string) string {
+	get := func(k string) string { v, _ := kv(ws, k); return v }
+	var defs [3]int
+	var regs [3][]rReg
+	for i := 0; i < 3; i++ {
+		defs[i] = optTag(get(fmt.Sprintf("d%d", i+1)))
+		r, ok := parseRouterRegs(get(fmt.Sprintf("r%d", i+1)))
+		if !ok {
+			return "bad-op"
+		}
+		regs[i] = r
+	}
+	var reqs []rReq
+	for _, q := range listOf(get("reqs")) {
+		p := strings.Split(q, ":")
+		if len(p) != 3 {
+			return "bad-op"
+		}
+		pos, _ := strconv.Atoi(p[2])
+		reqs = append(reqs, rReq{unhex(p[0]), unhex(p[1]), pos})
+	}
+	got := chainImpl(defs, regs, reqs)
+	want := chainSpec(defs, regs, reqs)
+	mk := func(regs [3][]rReg, reqs []rReq) string {
+		return fmt.Sprintf("chain d1=%s d2=%s d3=%s r1=%s r2=%s r3=%s reqs=%s", showOptTag(defs[0]), showOptTag(defs[1]), showOptTag(defs[2]),
+			showRouterRegs(regs[0]), showRouterRegs(regs[1]), showRouterRegs(regs[2]), showReqs(reqs))
+	}
+	for i := range got {
+		if got[i] != want[i] {
+			q := []rReq{reqs[i]}
+			cur := regs
+			bad := func(r [3][]rReg) bool {
+				return safeBad(func() bool { return chainImpl(defs, r, q)[0] != chainSpec(defs, r, q)[0] })
+			}
+			for changed := true; changed; {
+				changed = false
+				for t := 0; t < 3 && !changed; t++ {
+					for k := 0; k < len(cur[t]); k++ {
+						cand := cur
+						cand[t] = append(append([]rReg{}, cur[t][:k]...), cur[t][k+1:]...)
+						if bad(cand) {
+							cur, changed = cand, true
+							break
+						}
+					}
+				}
+			}
+			e.fail("tier-fallthrough-sees-shifted-route", fmt.Sprintf("%s %q through a service set whose tiers are routers (resource: %s; guest: %s; user: %s): handlers invoked > outcome = %s; deciding every tier on the request's own path gives %s — a router that returns Miss leaves the route position shifted, so the next tier matches on a suffix of the path",
+				q[0].method, q[0].path, showRouterRegs(cur[0]), showRouterRegs(cur[1]), showRouterRegs(cur[2]), chainImpl(defs, cur, q)[0], chainSpec(defs, cur, q)[0]), []string{mk(cur, q)})
+			break
+		}
+	}
+	return "serve=" + showList(got)
+}
+
 // ---------------------------------------------------------------- service set
 
 type tierSpec struct {
@@ -1321,6 +1475,8 @@ func (e *env) runOp(line string) (out string) {
 		return e.runRouter(ws[1:])
 	case "nest":
 		return e.runNest(ws[1:])
+	case "chain":
+		return e.runChain(ws[1:])
 	case "svc":
 		return e.runSvc(ws[1:])
 	case "host":
@@ -2029,6 +2185,62 @@ func genNest(s *sink, r *hx.Rand, thorough bool) {
 	s.flush()
 }
 
+// genChain: two or three routers as the tiers of one service set; the earlier
+// ones miss after matching part of the path (a file that is not a complete
+// match, a directory or default handler that returns Miss, no match at all).
+func genChain(s *sink, r *hx.Rand, thorough bool) {
+	s.stream = "tier-fallthrough"
+	pool := []string{"a", "b", "a/b", "b/a", "a/a"}
+	type item struct {
+		kind string
+		tag  int
+	}
+	items := []item{{"F", 1}, {"D", 1}, {"D", 71}}
+	if thorough {
+		pool = append(pool, "ab", "b/b", "a/b/a")
+	}
+	var paths []string
+	for _, p := range strs(1, 5) {
+		if n := len(splitSegs(p)); n >= 1 && !strings.HasPrefix(p, "//") {
+			paths = append(paths, p)
+		}
+	}
+	reqs := showReqs(routerReqs(paths, []string{"GET"}))
+	n := len(pool) * len(items)
+	mkReg := func(i, tag int) rReg {
+		it := items[i%len(items)]
+		t := tag
+		if it.tag >= 70 {
+			t = it.tag + tag%5
+		}
+		return rReg{kind: it.kind, path: pool[i/len(items)], tag: t}
+	}
+	cnt := 0
+	// one registration in the first router, one or two in the second
+	for i := 0; i < n; i++ {
+		for j := 0; j < n; j++ {
+			if s.stop {
+				return
+			}
+			d1 := "-"
+			if cnt%5 == 0 {
+				d1 = "75"
+			}
+			cnt++
+			r1 := showRouterRegs([]rReg{mkReg(i, 1)})
+			r2 := showRouterRegs([]rReg{mkReg(j, 2)})
+			s.add(fmt.Sprintf("chain d1=%s d2=- d3=- r1=%s r2=%s r3=_ reqs=%s", d1, r1, r2, reqs))
+			if thorough || (i+j)%3 == 0 {
+				for k := 0; k < n; k += 2 {
+					r3 := showRouterRegs([]rReg{mkReg(k, 3)})
+					s.add(fmt.Sprintf("chain d1=%s d2=- d3=91 r1=%s r2=%s r3=%s reqs=%s", d1, r1, r2, r3, reqs))
+				}
+			}
+		}
+	}
+	s.flush()
+}
+
 func genHost(s *sink) {
 	s.stream = "hostmux-exhaustive"
 	hosts := []string{"a.com", "A.com", "b.com", "a.com:80", "", "a.com."}
@@ -2091,12 +2303,14 @@ func main() {
 	genMux(s, r, false)
 	genRouter(s, r, false)
 	genNest(s, r, false)
+	genChain(s, r, false)
 	if th {
 		genRoute(s, true)
 		genSeg(s, r, true)
 		genSvc(s, r, true)
 		genRouter(s, r, true)
 		genNest(s, r, true)
+		genChain(s, r, true)
 		genMux(s, r, true)
 	}
 	rep.Exhaustive = !s.stop
